@@ -249,7 +249,7 @@ PURE = {
     "enumerate": enumerate, "zip": zip, "divmod": divmod, "pow": pow, "complex": complex, "type": type, "hash": hash, "bytes": bytes,
     "math.floor": math.floor, "math.ceil": math.ceil, "math.isinf": math.isinf, "math.isnan": math.isnan, "math.isfinite": math.isfinite,
     "math.trunc": math.trunc, "math.copysign": math.copysign, "math.sqrt": math.sqrt, "math.fabs": math.fabs, "math.isclose": math.isclose,
-    "math.log": math.log, "math.exp": math.exp, "statistics.mean": lambda xs: _guard(__import__("statistics").mean, list(xs)), "isclass": lambda x: isinstance(x, type), "inspect.isclass": lambda x: isinstance(x, type),
+    "math.log": math.log, "math.exp": math.exp, "math.nextafter": math.nextafter, "math.ulp": math.ulp, "math.fsum": math.fsum, "statistics.mean": lambda xs: _guard(__import__("statistics").mean, list(xs)), "isclass": lambda x: isinstance(x, type), "inspect.isclass": lambda x: isinstance(x, type),
     "dict.fromkeys": dict.fromkeys, "itertools.chain": itertools.chain, "itertools.chain.from_iterable": itertools.chain.from_iterable, "set.intersection": set.intersection, "set.union": set.union, "cast": lambda _t, v: v, "typing.cast": lambda _t, v: v, "re.compile": re.compile, "re.split": re.split, "re.sub": re.sub, "re.fullmatch": re.fullmatch, "re.match": re.match, "re.search": re.search, "callable": callable, "issubclass": issubclass, "dir": dir, "map": map, "filter": filter, "reversed": reversed, "iter": iter, "next": next, "dict": dict, "frozenset": frozenset, "getattr": getattr, "hasattr": hasattr, "id": id, "hex": hex,
 }
 import builtins as _builtins  # noqa: E402
